@@ -645,6 +645,34 @@ impl C09 {
                 }
                 mask = m;
                 tail.push(format!("mem_prot({})", m));
+            } else if rng.below(40) == 0 {
+                // the area shrinks to nothing and is created afresh at the same address: a new area starts with the
+                // default read+write mask, whatever the one before it had
+                let r = call(|| {
+                    ax.mem_resize_section(T_AT, 0)?;
+                    ax.mem_init_area(T_AT, t_contents(p.landing))
+                });
+                tail.push(format!("resize to 0, mem_init_area again -> {}", r.kind()));
+                col.distinct_key("hist|recreate");
+                if r.is_panic() {
+                    col.violation_case(&format!("recreate:panic:{}", r.panic_key()), k, r.describe(), json!({"history_tail": tail}));
+                    return;
+                }
+                if r.is_ok() {
+                    if let Some(a) = ax.verif_areas().iter().find(|a| a.start == T_AT && a.length > 0) {
+                        if a.access != 3 {
+                            col.violation_case("new-area-inherited-a-mask", k, format!("an area created with mem_init_area after its predecessor (mask {}) had shrunk to nothing has access {} instead of the default 3", mask, a.access), json!({"history_tail": tail}));
+                            return;
+                        }
+                    }
+                    mask = 3;
+                } else {
+                    // refused (e.g. the empty remainder is in the way): restore the extent
+                    let _ = call(|| ax.mem_resize_section(T_AT, T_LEN as u64));
+                    let _ = call(|| ax.mem_prot(T_AT, 3));
+                    let _ = catch(|| ax.mem_write_bytes(T_AT, &t_contents(p.landing)));
+                    let _ = call(|| ax.mem_prot(T_AT, mask));
+                }
             } else if rng.below(10) == 0 {
                 // the area grows / shrinks (as a heap does under brk): its permission mask stays what mem_prot made it
                 let nl = T_LEN as u64 + 0x10 * rng.below(8);
@@ -655,7 +683,7 @@ impl C09 {
                     col.violation_case(&format!("mem_resize_section:panic:{}", r.panic_key()), k, r.describe(), json!({"history_tail": tail}));
                     return;
                 }
-                if let Some(a) = ax.verif_areas().iter().find(|a| a.start == T_AT) {
+                if let Some(a) = ax.verif_areas().iter().find(|a| a.start == T_AT && a.length > 0) {
                     if a.access != mask {
                         col.violation_case("resize-changed-the-permission-mask", k, format!("mem_resize_section({:#x}, {:#x}): access {} -> {}", T_AT, nl, mask, a.access), json!({"history_tail": tail}));
                         return;
